@@ -28,7 +28,7 @@ class C13(PropertyCheck):
     def generate(self, rng, tier):
         n = 3000 if tier == "quick" else 15000
         return (fsgen.exhaustive_cases(tier) + fsgen.gen_cases(rng, tier, "c13", n, "listing-histories")
-                + fsgen.case_variant_cases(rng, tier))
+                + fsgen.case_variant_cases(rng, tier) + fsgen.hard_link_cases(rng, tier))
 
     def nontrivial(self, case, impl_out):
         return fsgen.nontrivial(case, impl_out, ("L", "S"))
